@@ -900,6 +900,7 @@ func (x *exec) step(s *State, in ssa.Instruction) bool {
 		if s.pc.IsFalse() {
 			return false
 		}
+		x.havocShared(s)
 	case *ssa.Defer:
 		x.doDefer(s, i)
 	case *ssa.RunDefers:
